@@ -79,7 +79,7 @@ def _cls(q):
 
 def symlist(h, name, sort=None):
     sp = h.space(name)
-    f = z3.Function(f"elem_{name}", z3.IntSort(), sort or z3.StringSort())
+    f = z3.Function(f"elem_{name}", z3.IntSort(), sort if sort is not None else z3.StringSort())
     h.syms[f"elem_{name}"] = f
     return SymSeq(sp, f(sp.u), name)
 
